@@ -78,6 +78,9 @@ TrEnd ==
           /\ (Ev.outcome \in {"ok", "err"} /\ ~(Ev.scribble = Ev.outcome /\ Ev.scribbleErr = Ev.err /\ Ev.scribbleSameSnapshots /\ Ev.scribbleSameCalls)) =>
                 Reject(l, [cls |-> "snapshot-not-isolated", with |-> Ev.outcome, scribbled |-> Ev.scribble,
                            snaps |-> Ev.scribbleSameSnapshots, calls |-> Ev.scribbleSameCalls])
+    \* debug.NewDebugger fan-out: same verdict, and every handler of every attach point sees the same stream
+    /\ (Has(Ev, "fanout") /\ Ev.outcome \in {"ok", "err"} /\ ~(Ev.fanout = Ev.outcome /\ Ev.fanoutErr = Ev.err /\ Ev.fanoutSameCalls)) =>
+          Reject(l, [cls |-> "fanout", with |-> Ev.outcome, fan |-> Ev.fanout, calls |-> Ev.fanoutSameCalls])
     /\ (Has(Ev, "calls") /\ Ev.outcome \in {"ok", "err"} /\ ~Lifecycle(Ev.calls, Ev.outcome)) =>
           Reject(l, [cls |-> "lifecycle", final |-> Final(Ev.calls), n |-> Len(Ev.calls)])
     /\ (~Ev.same \/ (Has(Ev, "nodbgSame") /\ ~Ev.nodbgSame)) => Reject(l, [cls |-> "sideeffect"])
